@@ -11,6 +11,7 @@ import Pog.Drv.Sinks
 import Pog.Drv.GenCode
 import Pog.Drv.Conv
 import Pog.Drv.Parser
+import Pog.Drv.Resolve
 /-
   Line protocol: one JSON request per line on stdin, one JSON reply per line on stdout.
     request  {"f": <function>, "a": [<args>], "u": {<codepoint>: {"w":bool,"d":bool,"l":str,"U":str,"iu":bool}}}
@@ -32,7 +33,8 @@ def dispatchers : List Dispatch := [
   dispatchSinks,
   dispatchGenCode,
   dispatchConv,
-  dispatchParser
+  dispatchParser,
+  dispatchResolve
 ]
 
 def dispatch (f : String) (a : Array Json) (u : UInfo) : Except String Json :=
